@@ -134,6 +134,7 @@ pub struct MergeCase {
 impl MergeCase {
     pub fn draw(p: &mut Prng, faulty: bool) -> MergeCase {
         let mut base = PsetSpec::draw_with_corpus(p, 8);
+        base.at_count_limit = 0;
         base.n_in = base.n_in.max(1);
         let k = p.urange(2, 5);
         let mut parties = Vec::new();
